@@ -425,6 +425,11 @@ def expand(prog: 'object') -> list[str]:
         from kfv import normalize
         for caller in touched.values():
             keep_ = {k[0] for k in localnames.table().get(caller.qualname, [])}
+            try:
+                # spliced locals first get their inventory names back, so that folding does not substitute them away
+                localnames.restore_function(caller.qualname, caller.node, log)
+            except Exception as e:  # noqa: BLE001
+                log.append(f'{caller.short}: name restoration after expansion skipped ({type(e).__name__}: {e})')
             normalize._fold(caller.node, keep_)      # constants substituted for parameters: getattr(o, f'_{k}') etc. fold now
             try:
                 # the spliced code comes from functions outside the inventory: give it the inventory spelling of the
